@@ -36,7 +36,17 @@ func c09Node(r *simk.Run) *simk.Violation {
 	nHeights := 2 + c.Intn(5)
 	restartAt := 1 + c.Intn(nHeights)
 	crash := c.Bool(0.5)
+	// big-build variant: at one height the mempool holds more transactions than one builder stream batch
+	// (256) while a client keeps re-submitting them (a gossiped or retried transaction) during the build,
+	// so the builder's prefetch of the next batch runs concurrently with re-admission
+	bigAt := 0
+	if c.Bool(0.12) {
+		bigAt = 1 + c.Intn(nHeights)
+	}
 
+	if bigAt > 0 {
+		s.MaxSteps = 600000
+	}
 	s.Run(r.T, func() {
 		ctx := context.Background()
 		var live []*Node
@@ -54,6 +64,11 @@ func c09Node(r *simk.Run) *simk.Violation {
 		rules.MinBlockGap = 100
 		rules.MinEmptyBlockGap = 100
 		rules.ValidityWindow = W
+		if bigAt > 0 {
+			for i := range rules.MaxBlockUnits {
+				rules.MaxBlockUnits[i] *= 20
+			}
+		}
 		sp := e2.Sponsors()
 		var alloc []*genesis.CustomAllocation
 		for i := 0; i < 3; i++ {
@@ -67,6 +82,9 @@ func c09Node(r *simk.Run) *simk.Violation {
 		chainID := ids.ID(hashing.ComputeHash256Array(genesisBytes))
 		time.Sleep(time.Until(time.Date(2023, 1, 2, 0, 0, 0, 0, time.UTC)))
 		cfg := defaultNodeCfg(128)
+		if bigAt > 0 {
+			cfg["vm"].(map[string]int)["mempoolSponsorSize"] = 2048
+		}
 		n, err := NewNode(ctx, r.T, fsm, "n1", genesisBytes, cfg, nullSender{})
 		live = append(live, n)
 		if err != nil {
@@ -121,13 +139,45 @@ func c09Node(r *simk.Run) *simk.Violation {
 				fail("harness", "SetPreference: %v", err)
 				return nil
 			}
-			txs := fresh(c.Intn(3))
+			nFresh := c.Intn(3)
+			big := bigAt > 0 && int(model[parent].h)+1 == bigAt
+			if big {
+				nFresh = 140 + c.Intn(200)
+			}
+			txs := fresh(nFresh)
 			if len(txs) > 0 {
 				for _, e := range n.VM.Submit(ctx, txs) {
 					if e != nil {
 						s.Probe("fresh_tx_refused")
 					}
 				}
+			}
+			var clientDone chan struct{}
+			if big {
+				// the client re-submits a seeded selection of the same transactions, in small groups, while
+				// the block is being built; every scheduling point of mempool and builder interleaves them
+				s.Probe("big_build")
+				nontrivial = true
+				var groups [][]*chain.Transaction
+				for g := 0; g < 6; g++ {
+					var grp []*chain.Transaction
+					for k := 0; k < 1+c.Intn(12); k++ {
+						grp = append(grp, txs[c.Intn(len(txs))])
+					}
+					groups = append(groups, grp)
+				}
+				// a late group taken from the second stream batch (what the builder prefetches)
+				if len(txs) > 260 {
+					groups = append(groups, txs[256:256+4+c.Intn(len(txs)-260)])
+				}
+				clientDone = make(chan struct{})
+				s.Go("client.resubmit", 0, func() {
+					defer close(clientDone)
+					for _, grp := range groups {
+						_ = n.VM.Submit(ctx, grp)
+						s.Yield("client.resubmit.next", 0)
+					}
+				})
 			}
 			// replays through admission: every transaction already on this chain must be refused
 			var replays []*chain.Transaction
@@ -152,6 +202,9 @@ func c09Node(r *simk.Run) *simk.Violation {
 				n.VM.Mempool().Add(ctx, replays)
 			}
 			blk, err := n.Snow.BuildBlock(ctx)
+			if clientDone != nil {
+				<-clientDone
+			}
 			if err != nil {
 				note("%s: build on h%d: %v", label, model[parent].h, err)
 				return nil
